@@ -107,6 +107,9 @@ def dec(a):
         return BadBool()
     if t == "badseq":
         return BadSeq(int(a["v"]))
+    if t == "pidplus":
+        # the sacrificial child's PID (or a PID above pid_max) plus a multiple of 2**32 / 2**64
+        return {"child": child, "nopid": lambda: PID_MAX_PLUS}[a["v"]]() + int(a["k"])
     if t == "pid":
         return {"child": child, "self": os.getpid, "zero": lambda: 0, "nopid": lambda: PID_MAX_PLUS}[a["v"]]()
     raise ValueError(a)
@@ -471,6 +474,11 @@ def do_call(c):
             cext.proc_ioprio_set(child(), 0, 0)
         except Exception:  # noqa: BLE001
             pass
+    if post == "nice":
+        try:
+            os.setpriority(os.PRIO_PROCESS, child(), 0)
+        except OSError:
+            pass
     try:
         if c.get("errno") is not None:
             poison_errno(c["errno"])
@@ -489,6 +497,21 @@ def do_call(c):
         out["all_cpus"] = all_cpus()
     if post == "ioprio":
         out["ioprio"] = raw_ioprio(child())
+        try:
+            cext.proc_ioprio_set(child(), 0, 0)          # restore
+        except Exception:  # noqa: BLE001
+            pass
+    if post == "nice":
+        try:
+            out["nice"] = os.getpriority(os.PRIO_PROCESS, child())
+            os.setpriority(os.PRIO_PROCESS, child(), 0)  # restore
+        except OSError as e:
+            out["nice"] = errno.errorcode.get(e.errno, str(e.errno))
+    if post == "affinity":
+        try:
+            os.sched_setaffinity(child(), all_cpus())    # restore
+        except OSError:
+            pass
     if c["fn"] == "set_debug":
         cext.set_debug(False)
     return out
